@@ -351,6 +351,17 @@ func c15AV1(c *fw.Ctx, i int) {
 			if len(g) > 1 && r.Bool() {
 				g[0] = byte(r.Pick(0x40, 0x50, 0xC0, 0x90, 0x60)) // plausible aggregation headers
 			}
+			if r.Chance(1, 3) {
+				// foreign but well-formed history (another sender keeps obu_size fields): a packet that announces a continuation (Y=1)
+				// although the OBU it carries is complete by its own size field - the continuation never comes
+				n := r.Range(0, 12)
+				o := ref.OBU{Type: uint8(r.Pick(6, 6, 3, 5, 1)), Payload: r.Bytes(n)}
+				g = append([]byte{byte(r.Pick(0x50, 0x50, 0x40, 0x60))}, o.Raw(true)...)
+				if g[0]&0x30 != 0x10 {
+					// W=0 / W=2: the element is length-prefixed
+					g = append([]byte{g[0]}, append(gen.LEB(uint64(len(g)-1)), g[1:]...)...)
+				}
+			}
 			garbage = append(garbage, g)
 		}
 	case 1:
